@@ -19,7 +19,7 @@ _REJ = (TypeError, ValueError, KeyError, IndexError)
 
 # ---- family 1: typed list with symbolic spec ---------------------------------------------
 
-TLIST_OPS = ['append', 'insert', 'extend', 'setitem', 'set_slice', 'delitem', 'del_slice', 'pop', 'remove', 'clear', 'iadd',
+TLIST_OPS = ['append', 'insert', 'extend', 'setitem', 'set_slice', 'delitem', 'del_slice', 'del_slice_neg', 'pop', 'remove', 'clear', 'iadd',
              'imul', 'rebind_idx', 'rebind_append', 'rebind_insert', 'rebind_missing', 'rebind_multi', 'add', 'mul', 'sort',
              'reverse', 'append_none', 'append_str', 'append_missing']
 
@@ -97,6 +97,12 @@ def h_tlist(params, lo, hi, mn, mx, x0, x1, x2, n, i, v, w, m):
     elif op == 'del_slice':
       a = _conc(i, 0, ln)
       del sut[a:a + 2]
+    elif op == 'del_slice_neg':
+      a = _conc(i, 0, ln)
+      if v > 0:
+        del sut[a::-1]         # from index a down to the start
+      else:
+        del sut[:a:-1]         # from the end down to (not including) index a
     elif op == 'pop':
       sut.pop(_conc(i, -ln, ln - 1))
     elif op == 'remove':
@@ -331,6 +337,11 @@ def _tree_ok(root):
       bad = _rec_ok(n, partial=n.allow_partial)
       if bad:
         return f'{bad} at {n.sym_path}'
+      # a stored container is never the very object the class keeps as the field's default (shared by all instances)
+      for key, field in Rec3.__schema__.items():
+        dv = field.default_value
+        if isinstance(dv, pg.Symbolic) and n.sym_hasattr(str(key)) and n.sym_getattr(str(key)) is dv:
+          return f'class_default_object_stored:{key} at {n.sym_path}'
   return None
 
 
@@ -455,7 +466,7 @@ _DA = [('lo', 'optint'), ('hi', 'optint'), ('dflt', 'int'), ('a0', 'int'), ('b0'
 _OA = [('v0', 'int'), ('v1', 'int'), ('v2', 'int'), ('v3', 'int'), ('t', 'int'), ('i', 'int'), ('vk', 'int'), ('w', 'int'),
        ('w2', 'int')]
 OBJ_OPS = ['setitem', 'setattr', 'delitem', 'delattr', 'append', 'insert', 'extend', 'pop', 'remove', 'clear', 'set_slice',
-           'del_slice', 'iadd', 'rebind_idx', 'rebind_insert', 'rebind_missing', 'rebind_key', 'rebind_kwargs',
+           'del_slice', 'del_slice_neg', 'iadd', 'rebind_idx', 'rebind_insert', 'rebind_missing', 'rebind_key', 'rebind_kwargs',
            'rebind_deep', 'rebind_deep2', 'update', 'setdefault', 'ior', 'popitem', 'rebind_fn']
 
 
